@@ -40,6 +40,9 @@ func (l *LineFormatPlanner) Process(ctx *shared.PlannerContext) (sql.ISelect, er
 }
 
 func (l *LineFormatPlanner) ProcessTpl(ctx *shared.PlannerContext) error {
+	// the format string and its arguments are rebuilt on every execution of the plan
+	l.formatStr = ""
+	l.args = nil
 	tpl, err := template.New(fmt.Sprintf("tpl%d", ctx.Id())).Parse(l.Template)
 	if err != nil {
 		return err
